@@ -177,8 +177,13 @@ def c12_3(ctx):
                     okk = False
                 if pname == "internal_pubkey" and "parse_xonly" not in ex:
                     okk = False
-                if pname == "hashes" and "for" not in ex:
-                    okk = False
+                if pname == "hashes":
+                    # a comprehension over slices of b, or (normal form) a list filled by `.append(b[lo:hi])` in a loop
+                    appended = isinstance(a, ast.Name) and any(
+                        isinstance(c, ast.Call) and isinstance(c.func, ast.Attribute) and c.func.attr == "append" and dotted(c.func.value) == a.id and c.args
+                        and isinstance(c.args[0], ast.Subscript) and dotted(c.args[0].value) == b for c in ast.walk(fn))
+                    if "for" not in ex and not appended:
+                        okk = False
             out.append(ctx.ok(spec, "parsed pieces are bound to (%s)" % ", ".join(ps), v, mod, key="cb-binding") if okk else
                        ctx.bad(spec, "parsed pieces are bound to the wrong constructor parameters: %s → %s" % (names, ps), v, mod, key="cb-binding"))
     return out
